@@ -15,6 +15,26 @@ pub fn check_mutated<F: Family>(m: &mutate::Mutated, what: &str) -> Result<(), S
     let blocking = F::decode(b);
     let (asyn, _) = fam::dec_async::<F>(b);
     let poll = fam::dec_poll::<F>(b).result;
+    // the classification does not depend on how the frame arrives: one byte at a time, with a Pending (future
+    // re-created) and transient transport failures (polled again with the same state) on the way
+    {
+        use crate::sio::Step;
+        use std::io::ErrorKind as K;
+        let steps = [Step::Chunk(1), Step::Fail(K::Interrupted), Step::Chunk(1), Step::Pending, Step::Chunk(1), Step::Fail(K::TimedOut), Step::Chunk(2), Step::Fail(K::WouldBlock), Step::Pending, Step::Chunk(3)];
+        let run = fam::dec_poll_styled::<F>(b, &steps, u64::MAX, None, false, 1);
+        if let Some(got) = &run.transient_not_surfaced {
+            return Err(format!("{}: the transport reported a transient failure and the poll decoder answered {}; frame {}", what, got, hex_short(b, 80)));
+        }
+        if run.result.as_ref().map(|o| &o.pkt) != poll.as_ref().map(|o| &o.pkt) {
+            return Err(format!(
+                "{}: poll decoder fed the frame piecewise (Pending, transient transport failures, resumed with the same state) returned {:?} but {:?} when everything is ready at once; frame {}",
+                what,
+                run.result.as_ref().map(|o| fam::render(&o.pkt)),
+                poll.as_ref().map(|o| fam::render(&o.pkt)),
+                hex_short(b, 80)
+            ));
+        }
+    }
     let show_b = |r: &Result<Option<F::Packet>, F::Error>| match r {
         Ok(Some(p)) => format!("Ok(Some({}))", fam::render(p).chars().take(120).collect::<String>()),
         Ok(None) => "Ok(None)".to_string(),
